@@ -125,6 +125,10 @@ func (g *Gen) anyExpr(t string, depth int) *Expr {
 	case 3, 4:
 		return g.litOfType(t, depth)
 	case 5:
+		if g.chance(0.3) {
+			// a single interpolation: the value itself, whatever its type
+			return &Expr{K: "tmpl", A: []*Expr{g.ref()}}
+		}
 		parts := []*Expr{{K: "str", S: g.str()}, g.anyExpr("string", depth+1)}
 		if g.chance(0.5) {
 			parts = append(parts, &Expr{K: "str", S: "-suffix"})
@@ -155,6 +159,9 @@ func (g *Gen) anyExpr(t string, depth int) *Expr {
 		n := g.n(3)
 		for i := 0; i < n; i++ {
 			e.A = append(e.A, g.anyExpr(g.pick([]string{"string", "number", "any"}), depth+1))
+		}
+		if n > 0 && !g.P.JSONTwin && g.chance(0.35) {
+			e.Multi = true
 		}
 		return e
 	default:
@@ -241,6 +248,38 @@ func (g *Gen) exprFor(c *ConsSpec, depth int) *Expr {
 		if g.chance(g.P.Violations) {
 			e.Keys = append(e.Keys, &Expr{K: "kw", S: "unknown_key"})
 			e.A = append(e.A, g.litOfType("string", 3))
+		}
+		if !g.P.JSONTwin && g.chance(0.2) {
+			// a computed key behind the known ones: (ref), "k-${ref}" or a.b
+			var k *Expr
+			switch g.n(3) {
+			case 0:
+				k = &Expr{K: "paren", A: []*Expr{g.ref()}}
+			case 1:
+				k = &Expr{K: "tmpl", A: []*Expr{{K: "str", S: "k-"}, g.ref()}}
+			default:
+				k = g.ref()
+			}
+			e.Keys = append(e.Keys, k)
+			if g.chance(0.5) {
+				e.A = append(e.A, g.ref())
+			} else {
+				e.A = append(e.A, g.litOfType(g.pick([]string{"string", "number", "bool"}), 3))
+			}
+			// and sometimes a known one behind it again
+			if len(c.Attrs) > 0 && g.chance(0.3) {
+				a := c.Attrs[g.n(len(c.Attrs))]
+				dup := false
+				for _, k := range e.Keys {
+					if (k.K == "kw" || k.K == "str") && k.S == a.Name {
+						dup = true
+					}
+				}
+				if !dup {
+					e.Keys = append(e.Keys, &Expr{K: "kw", S: a.Name})
+					e.A = append(e.A, g.exprFor(a.Cons, depth+1))
+				}
+			}
 		}
 		return e
 	case "oneof":
@@ -646,24 +685,27 @@ func (g *Gen) World() *World {
 					bl.Body.Implied = append(bl.Body.Implied, &ImpliedSpec{Origin: "var.missing", Target: "attr." + g.pick(stems), Path: other.Dir, Lang: other.Lang, Type: g.pick([]string{"", "any"})})
 				}
 				if g.chance(0.2) {
-					bl.Body.Targets = &TargetsSpec{Path: other.Dir, Lang: other.Lang, File: "main.sim", Start: [3]int{1, 1, 0}, End: [3]int{1, 1, 0}}
+					bl.Body.Targets = &TargetsSpec{Path: other.Dir, Lang: other.Lang, File: g.fileName((pi+1)%len(w.Paths), 0), Start: [3]int{1, 1, 0}, End: [3]int{1, 1, 0}}
 				}
 			}
 		}
 	}
-	for _, p := range w.Paths {
+	for pi, p := range w.Paths {
 		g.addrs = nil
 		nf := 1 + g.n(g.P.FilesPer)
 		for fi := 0; fi < nf; fi++ {
-			name := "main.sim"
-			if fi > 0 {
-				name = fmt.Sprintf("f%d.sim", fi)
-			}
+			name := g.fileName(pi, fi)
 			f := &FileSpec{Name: name, Items: g.items(p.Schema, 0, p.Dir)}
 			if g.P.Layout {
 				f.Layout = g.R.Uint64() | 1
 			}
 			p.Files = append(p.Files, f)
+		}
+		// the name the implied (cross-path) origins use is sometimes declared
+		// locally as well: one traversal is then a local and a path origin
+		if g.P.CrossPath && len(p.Files) > 0 && p.Schema.Block("variable") != nil && g.chance(0.5) {
+			p.Files[0].Items = append(p.Files[0].Items, &Item{Block: &BlockItem{Type: "variable", Labels: []string{"missing"}}},
+				&Item{Block: &BlockItem{Type: "output", Labels: []string{"uses_missing"}, Body: []*Item{{Attr: &AttrItem{Name: "value", Expr: &Expr{K: "ref", S: "var.missing"}}}}}})
 		}
 		g.resolveRefs(p.Files)
 	}
@@ -679,12 +721,60 @@ func (g *Gen) World() *World {
 		}
 		w.Paths = append(w.Paths, cl)
 	}
+	if g.P.SiblingLang && len(w.Paths) >= 1 {
+		// one directory served under two language ids, like a module and its
+		// variable-definition files: every attribute of the sibling is an origin
+		// pointing at a declaration of the module
+		src := w.Paths[0]
+		for _, bl := range src.Schema.Blocks {
+			if bl.Addr == nil || len(bl.Addr.Steps) != 2 || bl.Addr.Steps[0].K != "static" || bl.Addr.Steps[1].K != "label" || bl.Addr.Steps[1].Index != 0 || len(bl.Labels) == 0 {
+				continue
+			}
+			var names []string
+			seen := map[string]bool{}
+			for _, f := range src.Files {
+				for _, it := range f.Items {
+					if it.Block != nil && it.Block.Type == bl.Type && len(it.Block.Labels) > 0 && !seen[it.Block.Labels[0]] && isIdent(it.Block.Labels[0]) {
+						seen[it.Block.Labels[0]] = true
+						names = append(names, it.Block.Labels[0])
+					}
+				}
+			}
+			if len(names) == 0 {
+				continue
+			}
+			sib := &PathSpec{Dir: src.Dir, Lang: "simvars", Validators: src.Validators, Schema: &BodySpec{Any: &AttrSpec{Name: "any", Opt: true, Cons: &ConsSpec{K: "any", Type: "any"},
+				OriginFor: &PathTargetSpec{Steps: []StepSpec{{K: "static", Name: bl.Addr.Steps[0].Name}, {K: "attrname"}}, Path: src.Dir, Lang: src.Lang, Scope: bl.Addr.Scope}}}}
+			f := &FileSpec{Name: "vars.sim"}
+			for _, n := range names {
+				f.Items = append(f.Items, &Item{Attr: &AttrItem{Name: n, Expr: g.litOfType("string", 3)}})
+			}
+			if g.chance(0.3) {
+				f.Items = append(f.Items, &Item{Attr: &AttrItem{Name: "undeclared", Expr: g.litOfType("number", 3)}})
+			}
+			sib.Files = []*FileSpec{f}
+			w.Paths = append(w.Paths, sib)
+			break
+		}
+	}
 	if g.P.NoSchema {
 		for _, p := range w.Paths {
 			p.Schema = nil
 		}
 	}
 	return w
+}
+
+// fileName: main.sim, f1.sim, ... in every path, or names no two paths share.
+func (g *Gen) fileName(pi, fi int) string {
+	name := "main.sim"
+	if fi > 0 {
+		name = fmt.Sprintf("f%d.sim", fi)
+	}
+	if g.P.DistinctNames {
+		name = fmt.Sprintf("p%d_%s", pi, name)
+	}
+	return name
 }
 
 func (g *Gen) rootSchema() *BodySpec {
